@@ -20,6 +20,7 @@ type Case struct {
 	Level string       `json:"level"`
 	H     hgen.History `json:"h"`
 	Batch []int        `json:"batch,omitempty"`
+	Every int          `json:"every,omitempty"` // bulk histories: read the whole RIB back every n-th step only
 }
 
 func setup() {
@@ -34,7 +35,7 @@ func runCase(c Case) *ev.Verdict {
 	if c.Level == "L2" {
 		v, tr = l2.RunHistory(c.H, l2.Opts{P: "C03", Trusted: true, Batch: c.Batch})
 	} else {
-		v, tr = l1.Run(c.H, l1.Opts{P: "C03", Trusted: true})
+		v, tr = l1.Run(c.H, l1.Opts{P: "C03", Trusted: true, ObserveEvery: c.Every})
 	}
 	if tr.Retargets > 0 {
 		v.Class("retarget")
@@ -235,6 +236,15 @@ func TestCampaign(t *testing.T) {
 		}
 		epi := epilogue(hgen.NIs, []string{"1", "2", "3", "4"}, tops)
 		rapid.Check(t, func(rt *rapid.T) {
+			if rapid.IntRange(0, 29).Draw(rt, "bulk?") == 7 {
+				// dozens of groups / next-hops, a hundred-odd referrers, retargets, refused and
+				// accepted deletes, flush, delete-everything epilogue (built into the bulk history)
+				c := Case{Level: "L1", H: hgen.DrawBulk(rt, hgen.DefaultBulk()), Every: 16}
+				v := runCase(c)
+				v.Class("bulk-history")
+				col.Check(rt, ev.JSON(c), v)
+				return
+			}
 			h := hgen.DrawHistory(rt, cfg)
 			h.Steps = append(h.Steps, epi...)
 			// renumber: the epilogue continues the id sequence
